@@ -35,6 +35,7 @@ fn drive(args: &[String]) {
   let thorough = opt(args, "--tier") == Some("thorough");
   match prop.as_str() {
     "c19" => c19::drive(vectors, corpus, seed, out, thorough),
+    "c02" | "c03" => c03::drive(&prop, vectors, opt(args, "--vectors2"), corpus, seed, out, thorough),
     "c20" => c20::drive(vectors.expect("--vectors"), out),
     _ => {
       eprintln!("unknown property {prop}");
